@@ -73,6 +73,9 @@ def strip_comment(l):
     return l if i < 0 else l[:i]
 
 
+GEN2 = False
+
+
 def gen(filters):
     os.makedirs(ROOT, exist_ok=True)
     muts = []
@@ -116,9 +119,15 @@ def gen(filters):
             if re.match(r"^(self|\*?[a-z_][a-z_0-9.]*)(\.[a-z_0-9]+)*\s*(=|\+=|-=)\s*[^=].*;$", s) or re.match(r"^(self|[a-z_][a-z_0-9]*)(\.[a-z_0-9]+)*\.[a-z_0-9]+\(.*\);$", s) or s in ("continue;", "break;"):
                 if not s.startswith("let "):
                     muts.append({"file": rel, "line": n, "op": "del", "col": 0, "old": s, "new": ""})
-            # byte/char constant tweaks in comparisons
-            for m in re.finditer(r"b'(.)'", code):
-                pass
+            # second batch (gen2): byte literals and small integer literals on index-ish lines
+            if GEN2:
+                for m in re.finditer(r"b'([^'\\])'", code):
+                    muts.append({"file": rel, "line": n, "op": "byte", "col": m.start(), "old": m.group(0), "new": "b'!'" if m.group(1) != "!" else "b'?'"})
+                if any(k in code for k in ("[", "..", "len", "offset", "position", "depth", "level", "consume", "split_at", "truncate")):
+                    for m in re.finditer(r"(?<![\w.'])([0-9])(?![\w.'])", code):
+                        if "0x" in code or "'" in code[max(0, m.start() - 2):m.end() + 2]:
+                            continue
+                        muts.append({"file": rel, "line": n, "op": "lit", "col": m.start(), "old": m.group(1), "new": str(int(m.group(1)) + 1)})
     random.Random(7).shuffle(muts)
     for i, m in enumerate(muts):
         m["id"] = i
@@ -295,6 +304,20 @@ if __name__ == "__main__":
             rest.append(a)
     if cmd == "gen":
         gen(rest)
+    elif cmd == "gen2":
+        # append the second batch (new operators only) to the existing list, keeping ids stable
+        old = [json.loads(l) for l in open(os.path.join(ROOT, "mutants.jsonl"))]
+        shutil.copy(os.path.join(ROOT, "mutants.jsonl"), os.path.join(ROOT, "mutants.gen1.jsonl"))
+        GEN2 = True
+        gen(rest)
+        new = [json.loads(l) for l in open(os.path.join(ROOT, "mutants.jsonl"))]
+        new = [m for m in new if m["op"] in ("byte", "lit")]
+        for i, m in enumerate(new):
+            m["id"] = len(old) + i
+        with open(os.path.join(ROOT, "mutants.jsonl"), "w") as f:
+            for m in old + new:
+                f.write(json.dumps(m) + "\n")
+        print("appended", len(new))
     elif cmd == "run":
         run(j, limit, rest)
     elif cmd == "check":
